@@ -2,6 +2,7 @@ package conf
 
 import (
 	"fmt"
+	"math"
 	"reflect"
 	"strconv"
 	"time"
@@ -85,6 +86,9 @@ var DefaultCoercers = struct {
 		case int:
 			return v, nil
 		case int64:
+			if int64(int(v)) != v {
+				return nil, fmt.Errorf("failed to coerce int64 to int: %v is out of range", v)
+			}
 			return int(v), nil
 		case int32:
 			return int(v), nil
@@ -95,7 +99,12 @@ var DefaultCoercers = struct {
 			}
 			return convVal, nil
 		case float64:
-			return int(v), nil
+			// NaN, Inf and values outside the int range have no int representation (the conversion is undefined)
+			t := math.Trunc(v)
+			if t != t || t < float64(math.MinInt) || t >= float64(math.MaxInt)+1 {
+				return nil, fmt.Errorf("failed to coerce float64 to int: %v is out of range", v)
+			}
+			return int(t), nil
 		case bool:
 			if v {
 				return 1, nil
